@@ -267,6 +267,7 @@ def run(P, R, L):
     ord13(P, R, L)
     pair1(P, R, L)
     K.ord3_tables(P, R, L, rule="ORD-13")
+    K.cache_eviction(P, R, L)
     R.not_decided += ["directory contents for a concrete history", "crash-orphan collection beyond the guards"]
     R.assumptions += ["only the background thread and DB::open run remove_obsolete_files (single deleter)",
                       "a version handle dropped while the mutex was held continuously since acquisition is still current and is "
